@@ -13,7 +13,7 @@ RULE = ('actions: all 16x16 pairs in each support class of family A and the '
         'post-fixpoints); attractor(inside) vs. the documented recurrence; '
         'ee_image vs. explicit successors; descendants: inside constrain, '
         'closed under constrained successors, between constrained and '
-        'unconstrained reachability; every (E, S) also with the four modes '
+        'reachability along paths leaving the constraint at most at the seed; image, descendants and unprime again after MORE variables were declared in an automaton that had already answered such a query (3 staged scenarios x 4 first queries x 2 back ends); every (E, S) also with the four modes '
         'exercised one after the other in one reused automaton. non-trivial = CPre of some set is '
         'neither empty nor full; distinct = (E, S, mode, back end)')
 ASSUMPTIONS = ['dd trusted', 'state sets are built from explicit points '
@@ -32,6 +32,8 @@ def shards(tier, seed):
     out += [dict(fam='A1', backend='autoref', E=e, tier=tier, seed=seed)
             for e in ((seed % 16), (seed + 7) % 16)] if tier != 'thorough' \
         else []
+    out += [dict(fam='staged', backend=be, tier=tier, seed=seed)
+            for be in ('cudd', 'autoref')]
     for name in ('B1', 'B2', 'B4', 'B6', 'B7'):
         for ei in range(len(fam.B_SHAPES[name]['E'])):
             out.append(dict(fam=name, backend='cudd', E=ei, tier=tier,
@@ -39,7 +41,22 @@ def shards(tier, seed):
     return out
 
 
+STAGED = [
+    # (hint of x, first action, hint of y, second action)
+    ((0, 2), "(x' = x + 1) \\/ (x' = 0)", 'bool',
+     "(x' = x) /\\ (y' <=> ~ y)"),
+    ((-2, 1), "x' = 0 - x", (-3, -1),
+     "((x' = x + 1) /\\ (y' = y)) \\/ ((x' = x) /\\ (y' = -1))"),
+    ((0, 3), "x' > x", (0, 2), "(x' = y) /\\ (y' < y)"),
+]
+
+
 def cases(shard):
+    if shard['fam'] == 'staged':
+        for i in range(len(STAGED)):
+            for first in ('image', 'descendants', 'unprime', 'none'):
+                yield dict(staged=i, first=first, backend=shard['backend'])
+        return
     if shard['fam'].startswith('A'):
         evars, svars = fam.A_CLASSES[shard['fam']]
         for s in range(16):
@@ -104,8 +121,85 @@ def run_case(case, acc):
         acc.evals += max(after - before, 1)
 
 
+def _run_staged(case, acc):
+    """Image operators after MORE variables were declared in an automaton
+    that already answered an image / unprime query."""
+    import omega.symbolic.temporal as trl
+    import omega.symbolic.prime as prm
+    from omega.symbolic import fixpoint as fx
+    from vlib import readout as ro
+    hx, a1, hy, a2 = STAGED[case['staged']]
+    aut = trl.Automaton()
+    if case['backend'] == 'autoref':
+        import dd.autoref
+        aut.bdd = dd.autoref.BDD()
+    aut.declare_variables(x=hx)
+    aut.varlist.update(env=[], sys=['x'])
+    aut.prime_varlists()
+    aut.action['env'] = aut.true
+    aut.action['sys'] = aut.add_expr(a1)
+
+    def check(names, where):
+        pn = [v + "'" for v in names]
+        A = ro.Reader(aut, names + pn).table(aut.action['sys'])
+        rd = ro.Reader(aut, names)
+        space = rd.space()
+        k = len(names)
+        menu = [frozenset(space[:1]), frozenset(space[1::2]),
+                frozenset(space), frozenset(space[-2:])]
+        for src in menu:
+            exp = {r[k:] for r in A if r[:k] in src}
+            got = rd.table(fx.ee_image(rd.from_rows(src), aut))
+            acc.count('image_calls')
+            if got != exp:
+                acc.violation('image_mismatch', case, detail=dict(
+                    where=where, vars=names, source=sorted(src),
+                    got=sorted(got), ref=sorted(exp)))
+                return False
+            reach = set()
+            front = set(exp)
+            while front:
+                reach |= front
+                front = {r[k:] for r in A if r[:k] in front} - reach
+            got = rd.table(fx.descendants(rd.from_rows(src), aut.true, aut))
+            acc.count('descendants_calls')
+            if got != reach:
+                acc.violation('descendants_mismatch', case, detail=dict(
+                    where=where, vars=names, source=sorted(src),
+                    got=sorted(got), ref=sorted(reach)))
+                return False
+        # unprime of a predicate over the primed copies
+        for row in (space[0], space[-1]):
+            u = ro.Reader(aut, pn).from_rows({row})
+            got = rd.table(prm.unprime(u, aut))
+            acc.count('unprime_calls')
+            if got != {row}:
+                acc.violation('unprime_mismatch', case, detail=dict(
+                    where=where, vars=names, row=row, got=sorted(got)))
+                return False
+        return True
+    # a first query on the smaller automaton
+    x0 = ro.Reader(aut, ['x']).from_rows({ro.Reader(aut, ['x']).space()[0]})
+    if case['first'] == 'image':
+        fx.ee_image(x0, aut)
+    elif case['first'] == 'descendants':
+        fx.descendants(x0, aut.true, aut)
+    elif case['first'] == 'unprime':
+        prm.unprime(aut.add_expr("x' = 0"), aut)
+    if case['first'] != 'none' and not check(['x'], 'before'):
+        return
+    # more variables, a new action
+    aut.declare_variables(y=hy)
+    aut.varlist['sys'].append('y')
+    aut.prime_varlists()
+    aut.action['sys'] = aut.add_expr(a2)
+    check(['x', 'y'], 'after declaring more variables')
+
+
 def _run_case(case, acc, aut=None, report=None):
     from omega.symbolic import fixpoint as fx
+    if 'staged' in case:
+        return _run_staged(case, acc)
     if 'mode_seq' in case:
         # all four modes one after the other in ONE automaton
         aut = fam.build_game(case)
@@ -302,8 +396,14 @@ def _run_case(case, acc, aut=None, report=None):
             # lower bound: constrained reachability from the seed
             low = lfp_iter(lambda X: (X | (seed_ & con) |
                                       (image(X) & con)))
-            # upper bound: plain reachability, clipped to the constraint
-            up = lfp_iter(lambda X: X | seed_ | image(X)) & con
+            # upper bound: reachability along paths that stay inside the
+            # constraint after the seed (a seed state outside the
+            # constraint may still pass on its successors, as the
+            # documented loop does in its first round) - NOT plain
+            # reachability clipped to the constraint, which would contain
+            # states only reachable by leaving the constraint
+            start = (seed_ | image(seed_)) & con
+            up = lfp_iter(lambda X: X | start | (image(X) & con))
             probs = []
             if not got <= con:
                 probs.append('outside_constraint')
